@@ -108,12 +108,25 @@ def gen_rhs(rs, s, eig=False):
         rk = "eigvec(grade<=%d)" % grade
     else:
         B = rs.normal(size=(n, nc)) + (1j * rs.normal(size=(n, nc)) if cplx else 0)
-        B = B * 10.0 ** rs.uniform(-3, 3, size=(1, nc))
         rk = "random"
-    x0kind = str(rs.choice(["none", "none", "zeros", "random"]))
-    X0 = None if x0kind == "none" else (np.zeros_like(B) if x0kind == "zeros" else
-                                        (rs.normal(size=(n, nc)) + (1j * rs.normal(size=(n, nc)) if cplx else 0)).astype(B.dtype))
-    return dict(B=B.astype(A.dtype) if cplx else np.real(B), X0=X0, nc=nc, rhs=rk, x0kind=x0kind, vector_api=bool(nc == 1 and rs.random() < 0.5))
+    # absolute scale of every column spread over 22 orders of magnitude (the algorithm is scale-equivariant in b for
+    # x0 = 0; absolute thresholds hidden in the code would show up here)
+    B = B * 10.0 ** rs.uniform(-14, 8, size=(1, nc))
+    x0kind = str(rs.choice(["none", "none", "zeros", "random", "random_scaled", "warm"]))
+    rnd = rs.normal(size=(n, nc)) + (1j * rs.normal(size=(n, nc)) if cplx else 0)
+    if x0kind in ("warm", "random_scaled"):
+        Xs = np.linalg.solve(A, B)
+        xn = np.linalg.norm(Xs, axis=0, keepdims=True) / np.sqrt(n)
+        if x0kind == "warm":      # a warm start already accurate to 1e-12 .. 1e-6: the initial residual is tiny in absolute terms
+            x0kind = "warm(%.0e)" % float(rel := rs.choice([1e-12, 1e-10, 1e-8, 1e-6]))
+            X0 = Xs + rel * xn * rnd
+        else:
+            X0 = xn * rnd
+    else:
+        X0 = None if x0kind == "none" else (np.zeros_like(B) if x0kind == "zeros" else rnd)
+    if X0 is not None:
+        X0 = X0.astype(B.dtype)
+    return dict(B=B, X0=X0, nc=nc, rhs=rk, x0kind=x0kind, vector_api=bool(nc == 1 and rs.random() < 0.5))
 
 
 def describe(c, o=None):
@@ -193,12 +206,14 @@ def run(ctx):
         failing = []
     failset = {stable[i] for i in failing}
     minres_checked = exhausted = attributed = early = 0
+    ratio_worst = [0.0]
     for i, (c, o) in enumerate(zip(cases, obs)):
         bad, info = G.oracle(c, o, flags)
         minres_checked += info.get("minres_checked", 0)
         exhausted += info.get("exhausted", 0)
         attributed += info.get("attributed_exception", 0)
         early += info.get("early_breakdown", 0)
+        ratio_worst[0] = max(ratio_worst[0], info.get("ratio_worst", 0.0))
         if bad or i in failset:
             mism.append(dict(oracle_fail=bool(bad), case=describe(c, o), failed_clauses=bad, model_disagrees=(i in failset)))
             dump_case(c, o)
@@ -261,13 +276,15 @@ def run(ctx):
     return dict(
         evaluations=len(cases) + invpath, distinct_nontrivial=len(nontriv),
         rule="invertible systems of 6 kinds (shifted Gaussian, normal, non-normal with prescribed singular values, SPD, scaled unitary, triangular), real/complex, "
-             "n 1..%d in Coq (kappa <= 30) and 20..%d oracle-only (kappa <= 1e3), 1-3 columns, random and eigenvector right-hand sides (grade 1-3), x0 none/zero/random, "
+             "n 1..%d in Coq (kappa <= 30) and 20..%d oracle-only (kappa <= 1e3), 1-3 columns with absolute scales 1e-14..1e8, random and eigenvector right-hand sides (grade 1-3), x0 none/zero/random/warm start accurate to 1e-12..1e-6, "
              "max_iters from 1 to n+4, tol 1e-10..1e-4; non-trivial = n>=2 and at least one Arnoldi step; distinct by (system, max_iters)" % (nmax, ctx.budget(80, 150)),
         samples=[describe(c, o) for c, o in list(zip(cases, obs))[:3]], mismatches=mism, findings=fnd,
         extra=dict(compared_in_coq=len(items), near_tie=len(near), skipped_unstable=len(cases) - large - len(items) - len(near),
                    minres_clauses_checked=minres_checked, krylov_space_exhausted_columns=exhausted, large_oracle_only=large,
                    monotonicity_pairs=mono, inv_entry_point=invpath, impl_exceptions=sum(1 for o in obs if not o.get("ok")),
                    exceptions_attributed_to_flags=attributed, early_breakdown_cases=early,
+                   worst_final_over_initial_residual_where_checked=ratio_worst[0],
+                   rhs_scale_decades=hist(None, lambda c: int(np.floor(np.log10(max(float(np.max(np.abs(c["B"]))), 1e-300))))),
                    m_lt_n=sum(1 for c in cases if c["m"] < c["n"]), m_eq_n=sum(1 for c in cases if c["m"] == c["n"]), m_gt_n=sum(1 for c in cases if c["m"] > c["n"]),
                    kind_histogram=hist("kind"), rhs_histogram=hist("rhs"), x0_histogram=hist("x0kind"), columns_histogram=hist("nc"),
                    complex_cases=sum(1 for c in cases if c["cplx"]), stream_histogram=hist("stream"), flags_used_by_model=flags))
